@@ -172,6 +172,34 @@ def scen_on_ready():
     return out
 
 
+def scen_on_ready_map():
+    """two workers, one chunk each; the second worker's result arrives first"""
+    out = []
+
+    class C:
+        def __init__(self):
+            self.value = 0
+
+        def get_lock(self):
+            return threading.Lock()
+    cache = {}
+    counters = {11: C(), 12: C()}
+    rh = pool.ResultHandler.__new__(pool.ResultHandler)
+    rh.on_ready_counters = counters
+    rh.cache, rh.putlock, rh.restart_state = cache, None, None
+    rh.join_exited_workers, rh.on_job_ready, rh.check_timeouts = None, None, None
+    rh._make_methods()
+    m = pool.MapResult(cache, 1, 2, None, None)
+    m._ack(0, 900.0, 11)
+    m._ack(1, 901.0, 12)
+    rh.state_handlers[pool.READY](m._job, 1, (True, ['r1']), None)       # sent by worker 12
+    if counters[12].value != 1 or counters[11].value != 0:
+        out.append('map of 2 chunks (worker 11 has chunk 0, worker 12 chunk 1): the result of chunk 1, sent by worker 12, is '
+                   'credited as 11:%d 12:%d -- worker 12 will wait out its exit guard (30 s) for a credit that went to 11' % (
+                       counters[11].value, counters[12].value))
+    return out
+
+
 SCEN = {'pool.Pool.join': scen_join, 'pool.Pool.close': scen_close, 'pool.TaskHandler.tell_others': scen_tell,
         'pool.Worker._ensure_messages_consumed': scen_consumed}
 
@@ -180,7 +208,7 @@ def main():
     data = json.load(open(sys.argv[1]))
     fn = data['function']
     print('replay of %s / %s' % (fn, data['obligation']))
-    scen = scen_on_ready if fn.endswith('on_ready') else SCEN.get(fn)
+    scen = scen_on_ready_map if fn.endswith('on_ready@map') else (scen_on_ready if fn.endswith('on_ready') else SCEN.get(fn))
     if scen is None:
         print('no scenario for this function')
         sys.exit(0)
